@@ -256,10 +256,19 @@ async fn lane3(ctx: &Ctx, out: &mut Outcome, total: u64) {
             }
             let _ = ch.send(TopicBatch { batch: make_batch(&rows, false), metadata: md });
         }
+        // the channel is closed by dropping the sender: the receiver drains what was sent and then ends
+        // (no timing in the verdict; the 60 s timeout is a safety net whose firing is inconclusive)
         drop(ch);
         let mut got = vec![];
-        while let Ok(Ok(b)) = tokio::time::timeout(Duration::from_millis(200), rx.recv()).await {
-            got.extend(ids(&b));
+        loop {
+            match tokio::time::timeout(Duration::from_secs(60), rx.recv()).await {
+                Ok(Ok(b)) => got.extend(ids(&b)),
+                Ok(Err(_)) => break,
+                Err(_) => {
+                    out.inconclusive("lane 3: a closed topic channel did not end within 60 s");
+                    return;
+                }
+            }
         }
         out.eval();
         out.count("lane3.topic_subscriptions", 1);
@@ -312,16 +321,20 @@ fn lane2(ctx: &Ctx, out: &mut Outcome, total: u64) {
                 }
                 ing.write(b).await.map_err(|e| format!("write: {e}"))?;
             }
+            // End of the live tail without any timing in the verdict: dropping the ingester closes the
+            // broadcast channels, the streaming task forwards what is still queued and ends, the stream closes.
+            drop(ing);
             let mut got: Vec<Vec<u64>> = vec![];
             loop {
-                match tokio::time::timeout(Duration::from_millis(150), rx.recv()).await {
+                match tokio::time::timeout(Duration::from_secs(60), rx.recv()).await {
                     Ok(Some(Ok(b))) => {
                         if b.num_rows() > 0 {
                             got.push(ids(&b));
                         }
                     }
                     Ok(Some(Err(e))) => return Err(format!("stream error: {e}")),
-                    _ => break,
+                    Ok(None) => break,
+                    Err(_) => return Err("setup: the stream did not end within 60 s after the ingester was dropped".to_string()),
                 }
             }
             Ok((got, want))
